@@ -3,7 +3,7 @@ import ast
 
 from ..core import AnalysisError, call_name, dotted, src, walk_shallow
 from ..lib import Rules, need, calls_in, method_calls
-from ..lifetime import World, ResetAnalysis, rng_calls, self_path
+from ..lifetime import World, ResetAnalysis, rng_calls, self_path, global_writes
 from . import refcheck, pf_common
 
 PP = 'pero_ocr.document_ocr.page_parser'
@@ -39,6 +39,7 @@ def run(repo, chk):
     refcheck.run_all(R, repo, chk, 'RECUR', 'pagedec_ref.py', WHAT)
     chk.expect('RESET', 9)
     chk.expect('RNG', 2)
+    chk.expect('GLOBALS', 2)
     chk.expect('SIBLING', 4)
     chk.expect('PAIR', 3)
     chk.expect('RECUR', 5)
@@ -98,6 +99,30 @@ def rng(repo, chk):
 
 
 def module_state(repo, chk):
+    w = World(repo, PP + ':PageParser')
+    ra = ResetAnalysis(w, PP + ':PageParser', 'process_page')
+    seen = set()
+    n = 0
+    for q, cq in sorted(ra.reached, key=str):
+        if q in seen:
+            continue
+        seen.add(q)
+        fi = repo.funcs[q]
+        for node, what in global_writes(repo, fi):
+            n += 1
+            chk.ob('GLOBALS', fi, node, 'no function on the page-processing call graph writes process-wide state', False,
+                   what + ': state that outlives the page and is shared by every page processed afterwards', construct='global write in %s: %s' % (fi.name, what))
+    entry = repo.funcs[ra.entry.qual]
+    chk.ob('GLOBALS', entry, entry.node, '%d functions reachable from PageParser.process_page write no module-level object, class attribute, function attribute or mutable default argument' % len(seen),
+           n == 0, construct='global writes')
+    import ast as _ast
+    sample = repo.funcs.get(PP + ':get_prob')
+    from ..core import FuncInfo
+    mod = repo.module('pero_ocr.document_ocr.page_parser')
+    tree = _ast.parse("def f(x, _memo={}):\n    _memo[x] = 1\n    logger.cache.append(x)\n    return _memo\n")
+    fake = FuncInfo(mod, None, 'f', tree.body[0], PP + ':<positive example>')
+    need(len(global_writes(repo, fake)) == 2, 'GLOBALS recogniser lost its positive example')
+
     # module-level mutable objects on the decoding path must not be mutated in place
     m = repo.module('pero_ocr.decoding.decoders')
     bad = []
